@@ -8,6 +8,9 @@ Lattice explorer over (burn interval x step grid x thrust kind x dynamics x orbi
   ``Event.concreteFromConfig(cfg).handleEvent(agent)``), once per step whose event window contains the burn (as
   ``Scenario.stepForward`` does), and each step is ``prunePropagateEvents()`` + ``dynamics.propagate(t, t+dt, ...)``.
 * scenario level: real truth-only ``Scenario`` runs with ``finite_burn`` / ``finite_maneuver`` event configs.
+* two or three finite events queued for one agent (``protocol2`` / ``sched2`` / ``scenario2``): every relation of the
+  intervals to the step grid and to each other, in every queue order - what ``Celestial._prepEvents`` /
+  ``_applyEvents`` do with the single ``finite_thrust`` slot when the queue holds an active and a waiting event.
 
 Oracle: ``verif.oracles.c15_thrust`` - own thrust laws, own DOP853 integration (rtol 1e-11) of the library's gravity
 derivative (no thrust armed) with the thrust term added only for t in [t_start, t_end].
@@ -66,9 +69,25 @@ RULE = (
     "at all) or 'unexplained'; plus: every (t_start, t_end) pair of 15 instants through Celestial.propagate on a "
     "gravity-free harness dynamics with a closed-form oracle (protocol), direct lattices over the thrust laws, the "
     "event function / callback, the constructor validation and the pruning rule, two-burn and burn+impulse queues, "
-    "a 2-column state, and burns that start at the scenario epoch (watchdog against non-termination). non-trivial = the "
-    "burn start or end is not on a step boundary or the burn spans >= 2 steps (trajectory cases); both hemispheres "
-    "/ non-circular states (thrust laws); distinct by construction (lattice points)."
+    "a 2-column state, and burns that start at the scenario epoch (watchdog against non-termination). "
+    "TWO OR THREE FINITE EVENTS QUEUED FOR ONE AGENT (never overlapping; the later may start at the instant the "
+    "earlier ends): (i) protocol2 - every chain of 2 intervals over 12 instants (715 chains, eci+eci; 126 chains over "
+    "8 instants for eci+spiral and spiral+eci) and every chain of 3 intervals over 7 instants (84), in EVERY order "
+    "of the event list (2 / 6 permutations), handed to four consecutive Celestial.propagate calls on the "
+    "gravity-free harness dynamics either whole ('all': ended and far-future events included) or as "
+    "Scenario.stepForward + pruning would ('window'), event objects persisting across the calls; closed-form velocity "
+    "after every call; (ii) agent_sched2 - every chain of 2 intervals over the two-event alphabet {dt+1, 1.5dt, 2dt, "
+    "2dt+1, 2.5dt, 3dt, 3dt+7, [3.5dt thorough only], 5.5dt} plus 12 named schedules, both queue orders (delivery "
+    "order AB, and BA imposed on the whole queue before pruning), both dynamics, kinds rotating with the lattice "
+    "index through 6 (burn, maneuver) pairs, on a real TargetAgent stepped as the propagation job does (quick: the "
+    "lattice at dt=60, the named schedules at every step size); (iii) scenario2 - the 12 named schedules x both "
+    "orders of the events in the config x both dynamics through a real truth-only Scenario. The region of a "
+    "two-event case names the relation of the intervals: first_active_second_queued (the first is in progress at a "
+    "step boundary at which the second is already in the queue, waiting), second_starts_in_step_first_ends, "
+    "touching_on_grid / touching_off_grid (back-to-back), gap. "
+    "non-trivial = the burn start or end is not on a step boundary or the burn spans >= 2 steps (trajectory cases); "
+    "every two/three-event case; both hemispheres / non-circular states (thrust laws); distinct by construction "
+    "(lattice points)."
 )
 ASSUMPTIONS = [
     "the library's gravity derivative (_differentialEquation with no thrust armed) is the subject of other properties "
@@ -76,9 +95,11 @@ ASSUMPTIONS = [
     "calendar/Julian-date conversion (C05) is trusted for the 4e-5 s rounding of event times stored as Julian dates",
     "scipy DOP853 at rtol 1e-11 / atol 1e-13, split at every discontinuity, is the reference integrator",
     "overlapping finite burns on one agent are outside the design (single Celestial.finite_thrust slot) and are not "
-    "enumerated",
+    "enumerated; burns that touch (the later starts at the instant the earlier ends) are not overlapping and are",
+    "the order of an agent's propagate_event_queue / of the scheduled_events list is not part of the contract: "
+    "every order must fly the same trajectory",
 ]
-EXPECT_MIN_NONTRIVIAL = 300
+EXPECT_MIN_NONTRIVIAL = 2000
 
 # ---------------------------------------------------------------------------------------------- tolerances
 # Error sources: library RK45 (rtol 1e-10, atol 1e-12) vs DOP853 (1e-11): measured <= 8e-10 km/s and <= 1.0e-6 km over
@@ -214,8 +235,9 @@ def _orbit(name, dt, seed):
 
 def _tier_dims(tier, seed):
     if tier == "thorough":
-        return {"dts": [30, 60, 300, 450], "ks": [1, 2], "orbits": ["up", "down", "ecc"], "full_extra": True}
-    return {"dts": [60, 300], "ks": [1], "orbits": ["up", "down"], "full_extra": False}
+        return {"dts": [30, 60, 300, 450], "ks": [1, 2], "orbits": ["up", "down", "ecc"], "full_extra": True,
+                "sched_lattice_dts": [30, 60, 300, 450]}
+    return {"dts": [60, 300], "ks": [1], "orbits": ["up", "down"], "full_extra": False, "sched_lattice_dts": [60]}
 
 
 KINDS = ["eci", "ntw", "spiral", "plane_change"]
@@ -264,6 +286,21 @@ def items(tier, seed):
                     out.append(("scenario", model, dt, kind, "up" if kind != "plane_change" else "down", seed, chunk))
     for model in MODELS:
         out.append(("scenario_epoch_start", model, 60, seed))
+    # two / three finite events queued for one agent
+    for variant, (kinds, pts) in PROTO2_VARIANTS.items():
+        chains = [[list(iv) for iv in ch] for ch in _chains(pts, len(kinds))]
+        for chunk in fw.chunked(chains, 60 if len(kinds) == 2 else 14):
+            out.append(("protocol2", seed, variant, chunk))
+    for model in MODELS:
+        for dt in dims["dts"]:
+            pairs = _sched_pairs(dt, tier == "thorough") if dt in dims["sched_lattice_dts"] else _named_pairs(dt)
+            for chunk in fw.chunked(pairs, 5 if model == "special_perturbations" else 25):
+                out.append(("sched2", model, dt, seed, chunk))
+    for model in MODELS:
+        for dt in scen_dts:
+            rels = [[i, name, list(a), list(b)] for i, (name, a, b) in enumerate(_relations(dt))]
+            for chunk in fw.chunked(rels, 2):
+                out.append(("scenario2", model, dt, seed, chunk))
     return out
 
 
@@ -291,6 +328,28 @@ def bounds(tier, seed):
         "acceleration_km_s2": 1e-5,
         "epoch": _epoch(seed).isoformat(),
         "scenario_patterns": {"60": _scenario_patterns(60)},
+        "two_event_schedules": {
+            "protocol2": {name: {"kinds_in_time_order": list(kinds), "instants": pts,
+                                 "chains": len(_chains(pts, len(kinds))),
+                                 "list_orders": len(_permutations(len(kinds))), "offer_modes": ["all", "window"],
+                                 "calls": PROTO2_CALLS, "velocity_tolerance_km_s": PROTO2_TOL_V}
+                          for name, (kinds, pts) in PROTO2_VARIANTS.items()},
+            "agent_sched2": {
+                "lattice_step_sizes": dims["sched_lattice_dts"],
+                "named_only_step_sizes": [dt for dt in dims["dts"] if dt not in dims["sched_lattice_dts"]],
+                "instants": {str(dt): _sched_points(dt, tier == "thorough") for dt in dims["sched_lattice_dts"]},
+                "lattice_pairs_per_grid": len(_chains(_sched_points(60, tier == "thorough"), 2)),
+                "named_schedules": [name for name, _, _ in _relations(60)],
+                "queue_orders": ["AB", "BA"],
+                "kind_pairs": [list(kp) for kp in KIND_PAIRS],
+                "steps": f"ceil(second end / dt) + 1, at most {SCHED_STEPS}",
+                "orbit": {str(dt): _sched_orbit(dt) for dt in dims["dts"]},
+            },
+            "scenario2": {"step_sizes": [60] if tier == "quick" else [60, 300],
+                          "named_schedules": {name: [list(a), list(b)] for name, a, b in _relations(60)},
+                          "config_orders": ["AB", "BA"]},
+            "relation_histogram_of_lattice": _relation_histogram(dims["sched_lattice_dts"][0], tier == "thorough"),
+        },
         "tolerances": {"velocity_km_s": TOL_V, "position_km": TOL_R, "delivered_dv_km_s": TOL_DV},
     }
 
@@ -397,21 +456,26 @@ def _compare(lib, ref, times):
 
 
 def _classify(res, sub_prefix, level, model, case, lib_states, times, y0, gravity, burns_nominal, burns_effective, dt,
-              impulses=(), item=None, nontrivial=True, coast=None, one_step=False):
-    """Compare the library trajectory with the reference; on a mismatch decide whether one of the two recorded
-    defects explains it exactly (thrust kept on to the end of the step containing the burn end / no thrust at all)."""
+              impulses=(), item=None, nontrivial=True, coast=None, one_step=False, region=None, extra_hyp=(),
+              ref=None):
+    """Compare the library trajectory with the reference; on a mismatch decide whether one of the recorded
+    defects explains it exactly (thrust kept on to the end of the step containing the burn end / no thrust at all /
+    one of the ``extra_hyp`` = [(label, burns)] alternatives supplied by the caller)."""
     mname = MODELS[model]
-    ref = orc.integrate(gravity, y0, 0.0, times, burns_nominal, impulses)
+    if ref is None:  # callers that fly one schedule several ways pass the reference they already integrated
+        ref = orc.integrate(gravity, y0, 0.0, times, burns_nominal, impulses)
     wv, wr, first_bad = _compare(lib_states, ref, times)
     ok = first_bad is None
     end_eff = max(te for _, te, _ in burns_effective)
-    region = "end_on_grid" if all(_on_grid(te, dt) for _, te, _ in burns_effective) else "end_off_grid"
+    end_region = "end_on_grid" if all(_on_grid(te, dt) for _, te, _ in burns_effective) else "end_off_grid"
+    if region is None:
+        region = end_region
     label = "exact"
     explained_states = None
     if not ok:
         label = "unexplained"
         # hypothesis A: thrust runs to the end of the step that contains the (effective) burn end
-        if region == "end_off_grid":
+        if end_region == "end_off_grid":
             hyp = [(ts, _next_grid_after(te, dt), spec) for ts, te, spec in burns_effective]
             ref_a = orc.integrate(gravity, y0, 0.0, times, hyp, impulses)
             if _compare(lib_states, ref_a, times)[2] is None:
@@ -422,9 +486,16 @@ def _classify(res, sub_prefix, level, model, case, lib_states, times, y0, gravit
             if _compare(lib_states, ref_n, times)[2] is None:
                 # no thrust at all; "one_step": the integrator step that landed exactly on the burn end began before
                 # the burn start (the end-of-burn zero of the event function hid the start)
-                skipped = one_step and region == "end_on_grid"
+                skipped = one_step and end_region == "end_on_grid"
                 label = "burn_inside_one_integrator_step_skipped" if skipped else "no_thrust_applied"
                 explained_states = ref_n
+        if label == "unexplained":
+            for hyp_label, hyp_burns in extra_hyp:
+                ref_h = orc.integrate(gravity, y0, 0.0, times, hyp_burns, impulses)
+                if _compare(lib_states, ref_h, times)[2] is None:
+                    label = hyp_label
+                    explained_states = ref_h
+                    break
     sig = f"C15/{level}/interval/{mname}/{region}/{label}"
     case = dict(case, region=region, first_bad_step=first_bad)
     res.case(
@@ -1064,6 +1135,445 @@ def _run_protocol(res, item):
             res.observe(state, on)
     EventStack.logAndFlushEvents()
 
+# ---------------------------------------------------------------------------------------------- two-event schedules
+# Two (or three) finite events queued for ONE agent, never overlapping (a later one may start at the very instant the
+# earlier one ends).  What is enumerated: every relation of the two intervals to the step grid and to each other
+# (first in progress across a step boundary while the second is already queued and waiting; second starts in the
+# step in which the first ends; both inside one step; back-to-back with the joint on / off the grid; a gap of several
+# steps; either burn spanning several boundaries) x both queue orders x both dynamics, at three levels: the bare
+# Celestial.propagate protocol (closed-form oracle), a real TargetAgent stepped as the propagation job does, and a
+# real Scenario.
+KIND_PAIRS = [("eci", "spiral"), ("plane_change", "ntw"), ("spiral", "eci"), ("ntw", "plane_change"),
+              ("eci", "ntw"), ("spiral", "plane_change")]
+
+
+def _spec_b(kind, seed):
+    """Thrust of the SECOND event of a schedule: different magnitude / direction from ``_spec`` of the same kind, so
+    that arming the wrong event's thrust function shows even when both events are of one kind."""
+    sgn = -1.0 if seed % 2 else 1.0
+    if kind == "eci":
+        return {"kind": "eci", "acc": [0.2e-5, 0.6e-5 * sgn, -0.4e-5]}
+    if kind == "ntw":
+        return {"kind": "ntw", "acc": [-0.4e-5, 0.5e-5 * sgn, 0.3e-5]}
+    if kind == "spiral":
+        return {"kind": "spiral", "mag": -0.7e-5 * sgn}
+    if kind == "plane_change":
+        return {"kind": "plane_change", "mag": 0.7e-5 if seed % 3 == 2 else -0.7e-5}
+    raise ValueError(kind)
+
+
+def _sched_points(dt, full):
+    """Instants of the two-event lattice: just after / in the middle of / on the boundaries of three consecutive steps,
+    and one several steps later.  ``full`` (thorough tier) adds the middle of the fourth step, which the quick tier
+    reaches through the named schedules of ``_relations`` only."""
+    pts = [dt + 1, dt + dt // 2, 2 * dt, 2 * dt + 1, 2 * dt + dt // 2, 3 * dt, 3 * dt + 7]
+    return pts + ([3 * dt + dt // 2] if full else []) + [5 * dt + dt // 2]
+
+
+SCHED_STEPS = 7  # the last instant of the alphabets (6.5 dt) lies in the seventh step
+
+
+def _chains(points, n, lo=None):
+    """Every chain of n intervals (s_1, e_1), ..., (s_n, e_n) over ``points`` with s_i < e_i <= s_(i+1)."""
+    pts = [p for p in points if lo is None or p >= lo]
+    out = []
+    for i, s in enumerate(pts):
+        for e in pts[i + 1:]:
+            if n == 1:
+                out.append([(float(s), float(e))])
+            else:
+                out.extend([(float(s), float(e)), *rest] for rest in _chains(points, n - 1, lo=e))
+    return out
+
+
+def _sched_pairs(dt, full):
+    """[index, a0, a1, b0, b1] of every lattice pair, followed by the named schedules (index >= 1000)."""
+    out = [[i, a[0], a[1], b[0], b[1]] for i, (a, b) in enumerate(_chains(_sched_points(dt, full), 2))]
+    return out + _named_pairs(dt)
+
+
+def _named_pairs(dt):
+    return [[1000 + i, float(a[0]), float(a[1]), float(b[0]), float(b[1])] for i, (_, a, b) in enumerate(_relations(dt))]
+
+
+def _relations(dt):
+    """Named two-event schedules (used where the full lattice is too dear: Scenario runs, the second step size of the
+    quick tier): one representative of every relation of the two intervals to the grid and to each other."""
+    d, h = dt, dt // 2
+    return [
+        ("first_across_boundary_second_waits", (d + 10, 2 * d + 10), (2 * d + 40, 3 * d + 10)),
+        ("first_across_two_boundaries_second_waits", (d + 1, 3 * d + 7), (3 * d + h, 4 * d + h)),
+        ("first_across_boundary_second_starts_next_boundary", (d + h, 2 * d + h), (3 * d, 3 * d + h)),
+        ("second_inside_step_where_first_ends", (d + h, 2 * d + 5), (2 * d + 10, 2 * d + h)),
+        ("both_inside_one_step", (d + 5, d + 20), (d + h, 2 * d - 5)),
+        ("back_to_back_joint_off_grid", (d + 1, 2 * d + h), (2 * d + h, 3 * d + 7)),
+        ("back_to_back_joint_on_grid", (d + 1, 2 * d), (2 * d, 3 * d + 7)),
+        ("first_ends_on_boundary_second_starts_1s_later", (d + 1, 2 * d), (2 * d + 1, 3 * d)),
+        ("first_ends_1s_before_boundary_second_starts_on_it", (d + h, 2 * d - 1), (2 * d, 3 * d + 7)),
+        ("gap_of_three_steps", (d + 1, 2 * d + 1), (5 * d + h, 6 * d + h)),
+        ("second_long_across_three_boundaries", (d + h, 2 * d + 1), (2 * d + h, 5 * d + 7)),
+        ("both_on_grid_consecutive_steps", (d, 2 * d), (3 * d, 4 * d)),
+    ]
+
+
+def _relation(a, b, dt):
+    """Region name of a two-event schedule a = (a0, a1) before b = (b0, b1), a1 <= b0."""
+    a0, a1 = a
+    b0, b1 = b
+    if a1 == b0:
+        return "touching_on_grid" if _on_grid(a1, dt) else "touching_off_grid"
+    g = (np.floor(a0 / dt) + 1.0) * dt  # first step boundary after the start of the first event
+    while g < a1:
+        if b0 <= g + dt:  # the second event is delivered to the agent in the step that starts at g
+            return "first_active_second_queued"
+        g += dt
+    if np.ceil(b0 / dt) <= np.ceil(a1 / dt):
+        return "second_starts_in_step_first_ends"
+    return "gap"
+
+
+def _relation_histogram(dt, full):
+    out = {}
+    for _, a0, a1, b0, b1 in _sched_pairs(dt, full):
+        name = _relation((a0, a1), (b0, b1), dt)
+        out[name] = out.get(name, 0) + 1
+    return out
+
+
+def _missed_touching_start(burns_in_queue_order, dt):
+    """Recorded defect (F-C15-5): an event that starts at the very instant at which an event that precedes it in the
+    queue ends, with that instant not on a step boundary, is not started (the integration restarts one ulp after the
+    end root; the waiting event's root is then behind it) until the next propagate call re-arms it.  Returns the burn
+    list the library then flies, or None when the precondition does not occur."""
+    eff = {}
+    hit = False
+    for i in sorted(range(len(burns_in_queue_order)), key=lambda j: burns_in_queue_order[j][0]):
+        ts, te, sp = burns_in_queue_order[i]
+        late = False
+        if not _on_grid(ts, dt):
+            for j in range(i):  # events ahead of it in the queue
+                pe = burns_in_queue_order[j][1]
+                if pe == ts and j in eff and eff[j][0] < ts:  # ... thrusting up to that instant
+                    late = True
+        if late:
+            hit = True
+            g = _next_grid_after(ts, dt)
+            if g < te:
+                eff[i] = (g, te, sp)
+        else:
+            eff[i] = (ts, te, sp)
+    return [eff[i] for i in sorted(eff)] if hit else None
+
+
+def _first_seen_order(queue):
+    out = []
+    for e in queue:
+        key = (float(e.start_time), float(e.end_time))
+        if key not in out:
+            out.append(key)
+    return out
+
+
+def _sched_orbit(dt):
+    """Orbit family of the two-event runs: no equatorial crossing during the flight (the plane-change law flips sign
+    there, which the library steps over without an event - an accuracy matter, see EXTRA_QUICK): "up" reaches the
+    descending node after about 2900 s, "ecc" after about 5300 s."""
+    return "up" if (SCHED_STEPS + 1) * dt <= 2500 else "ecc"
+
+
+def _run_sched2(res, item):
+    """Two finite events on one real TargetAgent, stepped as the propagation job does."""
+    _, model, dt, seed, chunk = item
+    start = _epoch(seed)
+    world = World(model, dt, start, SCHED_STEPS)
+    pos, vel = _orbit(_sched_orbit(dt), dt, seed)
+    all_times = [float((j + 1) * dt) for j in range(SCHED_STEPS)]
+    gravity = None
+    coast = None
+    for idx, a0, a1, b0, b1 in chunk:
+        idx = int(idx)
+        a, b = (float(a0), float(a1)), (float(b0), float(b1))
+        n_steps = min(SCHED_STEPS, int(np.ceil(b[1] / dt)) + 1)  # one free-flying step after the last end
+        times = all_times[:n_steps]
+        kind_a, kind_b = KIND_PAIRS[(idx + seed) % len(KIND_PAIRS)]
+        burns = [(a[0], a[1], _spec(kind_a, seed)), (b[0], b[1], _spec_b(kind_b, seed))]
+        region = _relation(a, b, dt)
+        ref = None
+        for order in ("AB", "BA"):
+            agent = world.agent(pos, vel)
+            if gravity is None:
+                gravity = world.gravity(agent)
+                coast = orc.integrate(gravity, agent.eci_state, 0.0, all_times, [])
+            y0 = np.array(agent.eci_state, dtype=float)
+            if ref is None:  # one reference per schedule: it does not know about queue orders
+                ref = orc.integrate(gravity, y0, 0.0, times, burns)
+            one = ("sched2", model, dt, seed, [[idx, a[0], a[1], b[0], b[1]]])
+            case = {"model": MODELS[model], "dt": dt, "first": [a[0], a[1], kind_a], "second": [b[0], b[1], kind_b],
+                    "queue_order": order, "relation": region}
+            lib, offered, err = [], [], None
+            both_queued_first_active = False
+            try:
+                for _ in range(n_steps):
+                    t_k = float(agent.time)
+                    # delivery as Scenario.stepForward does it: every row with start <= t_k+dt and end > t_k
+                    due = [bn for bn in burns if bn[0] <= t_k + dt and bn[1] > t_k]
+                    for ts, te, sp in (due if order == "AB" else due[::-1]):
+                        offered.append(_make_event(agent, sp, ts, te, "direct", start))
+                    if order == "BA":
+                        # the order in which rows come back from the database is not specified: impose later-first on
+                        # the whole queue (entries kept from earlier steps included); stable, so copies stay adjacent
+                        agent.propagate_event_queue.sort(key=lambda e: -float(e.start_time))
+                    agent.prunePropagateEvents()
+                    _audit_queue(res, "agent_sched2", "agent_sched2", dict(case), agent, offered, t_k, one)
+                    keys = _first_seen_order(agent.propagate_event_queue)
+                    want_keys = [(ts, te) for ts, te, _ in (burns if order == "AB" else burns[::-1]) if (ts, te) in keys]
+                    res.case("agent_sched2/queue_order_kept", dict(case, t=t_k), keys == want_keys,
+                             nontrivial=len(keys) > 1, signature="C15/agent_sched2/queue_order_kept", observed=keys,
+                             expected=want_keys, item=one)
+                    if len(keys) > 1 and a[0] < t_k < a[1]:
+                        both_queued_first_active = True
+                    lib.append(_step_agent(agent))
+            except PropagationStall as exc:
+                err = str(exc)
+            except Exception as exc:  # noqa: BLE001
+                err = f"{type(exc).__name__}: {exc}"
+            EventStack.logAndFlushEvents()
+            case["first_active_at_a_call_start_with_second_queued"] = both_queued_first_active
+            if err is not None:
+                res.case("agent_sched2/interval", case, False, nontrivial=True,
+                         signature=f"C15/agent_sched2/interval/{MODELS[model]}/{region}/error", observed=err,
+                         outcome="error", item=one)
+                continue
+            in_queue_order = burns if order == "AB" else burns[::-1]
+            hyp = _missed_touching_start(in_queue_order, dt)
+            _classify(res, "agent_sched2", "agent_sched2", model, case, lib, times, y0, gravity, burns, burns, dt,
+                      item=one, coast=coast, region=region, ref=ref,
+                      extra_hyp=[("start_at_previous_end_missed", hyp)] if hyp is not None else ())
+            res.states += n_steps + 1
+            res.transitions += n_steps
+            res.traces += 1
+
+
+def _run_scenario2(res, item):
+    """Two finite events of one target through a real truth-only Scenario, listed in the config in either order."""
+    from resonaate.data.ephemeris import TruthEphemeris  # noqa: PLC0415
+    from sqlalchemy.orm import Query  # noqa: PLC0415
+
+    _, model, dt, seed, rels = item
+    start = _epoch(seed)
+    pos, vel = _orbit(_sched_orbit(dt), dt, seed)
+    for ridx, name, a, b in rels:
+        ridx = int(ridx)
+        a, b = (float(a[0]), float(a[1])), (float(b[0]), float(b[1]))
+        kind_a, kind_b = KIND_PAIRS[(ridx + seed) % len(KIND_PAIRS)]
+        burns = [(a[0], a[1], _spec(kind_a, seed)), (b[0], b[1], _spec_b(kind_b, seed))]
+        n_steps = int(np.ceil(b[1] / dt)) + 1
+        times = [float((j + 1) * dt) for j in range(n_steps)]
+        ref = None
+        for cfg_order in ("AB", "BA"):
+            evs = [_event_config(sp, ts, te, start) for ts, te, sp in (burns if cfg_order == "AB" else burns[::-1])]
+            cfg = scen.config(
+                start, n_steps,
+                [scen.engine(1, [scen.target_eci(TARGET_ID, pos, vel)], [scen.ground_sensor(20001, 10.0, 20.0)])],
+                physics=dt, truth_only=True, model=model, events=evs,
+            )
+            one = ("scenario2", model, dt, seed, [[ridx, name, list(a), list(b)]])
+            case = {"model": MODELS[model], "dt": dt, "schedule": name, "first": [a[0], a[1], kind_a],
+                    "second": [b[0], b[1], kind_b], "config_order": cfg_order, "mode": "scenario"}
+            sc = scen.build(cfg)
+            agent = sc.target_agents[TARGET_ID]
+            y0 = np.array(agent.eci_state, dtype=float)
+            ref_dyn = copy.deepcopy(agent.dynamics)
+            ref_dyn.finite_thrust = None
+
+            def gravity(t, y, ref_dyn=ref_dyn):
+                return ref_dyn._differentialEquation(t, y, check_collision=False)  # noqa: SLF001
+
+            lib, seen, err = [], [], None
+            both_queued_first_active = False
+            WATCHDOG.reset()
+            try:
+                for _ in range(n_steps):
+                    sc.stepForward()
+                    sc.saveDatabaseOutput()
+                    lib.append(np.array(agent.eci_state, dtype=float))
+                    keys = _first_seen_order(agent.propagate_event_queue)  # the queue the step just flown was given
+                    t_prev = float(agent.time) - dt
+                    live = [k for k in keys if k[1] > t_prev + 1e-4]
+                    if len(live) > 1 and abs(live[0][0] - a[0]) < 1e-4 and a[0] + 1e-4 < t_prev < a[1] - 1e-4:
+                        both_queued_first_active = True
+                    for k in keys:
+                        if k not in seen:
+                            seen.append(k)
+            except Exception as exc:  # noqa: BLE001
+                err = f"{type(exc).__name__}: {exc}"
+            case["first_active_at_a_call_start_with_second_queued"] = both_queued_first_active
+            if err is not None:
+                res.case("scenario2/interval", case, False, nontrivial=True,
+                         signature=f"C15/scenario2/interval/{MODELS[model]}/error", observed=err, outcome="error",
+                         item=one)
+                continue
+            # both events reached the agent, with the configured times to within Julian-date resolution
+            eff = []
+            for ts, te, sp in burns:
+                hit = [k for k in seen if abs(k[0] - ts) < 1e-4 and abs(k[1] - te) < 1e-4]
+                eff.append((hit[0][0], hit[0][1], sp) if hit else None)
+            delivered = len(seen) == 2 and all(e is not None for e in eff)
+            res.case("scenario2/events_delivered", case, delivered, nontrivial=True,
+                     signature="C15/scenario2/events_delivered", observed=[list(k) for k in seen],
+                     expected=[[ts, te] for ts, te, _ in burns], item=one)
+            if not delivered:
+                continue
+            region = _relation((eff[0][0], eff[0][1]), (eff[1][0], eff[1][1]), dt) if eff[0][1] <= eff[1][0] \
+                else "overlap_after_rounding"
+            case["relation"] = region
+            in_queue_order = sorted(eff, key=lambda bn: seen.index((bn[0], bn[1])))
+            hyp = _missed_touching_start(in_queue_order, dt)
+            extra = [("start_at_previous_end_missed", hyp)] if hyp is not None else []
+            # the recorded end-of-burn hypotheses of _classify work on the effective (Julian-date rounded) times
+            if ref is None:  # same initial state, same configured times in both config orders
+                ref = orc.integrate(gravity, y0, 0.0, times, burns)
+            _classify(res, "scenario2", "scenario2", model, case, lib, times, y0, gravity, burns, eff, dt, item=one,
+                      region=region, extra_hyp=extra, ref=ref)
+            rows = sorted(sc.database.getData(Query(TruthEphemeris).filter(TruthEphemeris.agent_id == TARGET_ID)),
+                          key=lambda r: r.julian_date)
+            ok_rows = len(rows) == n_steps + 1 and all(
+                fw.maxabs(np.array(r.eci), s) <= 1e-12 for r, s in zip(rows[1:], lib)
+            )
+            res.case("scenario2/truth_rows", case, ok_rows, nontrivial=True, signature="C15/scenario2/truth_rows",
+                     observed={"rows": len(rows)}, expected={"rows": n_steps + 1}, item=one)
+            res.states += n_steps + 1
+            res.transitions += n_steps
+            res.traces += 1
+
+
+# ---------------------------------------------------------------------------------------------- protocol, 2-3 events
+PROTO2_TIMES = [30.0, 59.0, 60.0, 61.0, 90.0, 119.0, 120.0, 121.0, 150.0, 180.0, 185.0, 210.0]
+PROTO2_MIXED_TIMES = [30.0, 60.0, 61.0, 119.0, 120.0, 150.0, 185.0, 210.0]
+PROTO3_TIMES = [30.0, 60.0, 61.0, 119.0, 120.0, 150.0, 185.0]
+PROTO2_CALLS = 4  # consecutive propagate calls [0,60], [60,120], [120,180], [180,240]
+PROTO2_VARIANTS = {
+    # name: (kinds in time order, time alphabet)
+    "eci_eci": (("eci", "eci"), PROTO2_TIMES),
+    "eci_spiral": (("eci", "spiral"), PROTO2_MIXED_TIMES),
+    "spiral_eci": (("spiral", "eci"), PROTO2_MIXED_TIMES),
+    "eci_eci_eci": (("eci", "eci", "eci"), PROTO3_TIMES),
+}
+# Velocity tolerance of the closed-form comparison: the right-hand side is piecewise constant in magnitude and
+# direction, RK45 integrates it exactly, event roots of the linear event functions are located to 4 ulp of t
+# (1e-14 s -> 1e-19 km/s); what is left is rounding of |v| ~ 2.3 km/s (4.4e-16 per addition, < 100 additions over the
+# four calls and their restarts: < 5e-14 km/s).  1e-12 km/s = 1e-7 s of thrust; the smallest defect is 1 s.
+PROTO2_TOL_V = 1e-12
+
+
+def _proto2_specs(kinds, seed):
+    sgn = -1.0 if seed % 2 else 1.0
+    eci = [[0.8e-5 * sgn, -0.5e-5, 0.3e-5], [0.2e-5, 0.9e-5 * sgn, -0.4e-5], [-0.5e-5, 0.1e-5, 0.7e-5 * sgn]]
+    out = []
+    for i, kind in enumerate(kinds):
+        out.append({"kind": "eci", "acc": eci[i]} if kind == "eci" else {"kind": "spiral", "mag": 0.9e-5 * sgn})
+    return out
+
+
+def _ff_velocity(v0, burns, t):
+    """Closed form for the gravity-free harness: velocity at time t after the (non-overlapping) burns, each applied
+    over its overlap with [0, t]; a spiral burn accelerates along the velocity it finds (the direction then stays)."""
+    v = np.array(v0, dtype=float)
+    for ts, te, sp in sorted(burns, key=lambda bn: bn[0]):
+        w = _overlap(ts, te, 0.0, t)
+        if w <= 0.0:
+            continue
+        if sp["kind"] == "eci":
+            v = v + np.array(sp["acc"], dtype=float) * w
+        else:
+            v = v + sp["mag"] * w * v / np.sqrt(v @ v)
+    return v
+
+
+def _proto2_event(ts, te, sp):
+    if sp["kind"] == "eci":
+        return ScheduledFiniteBurn(ScenarioTime(ts), ScenarioTime(te),
+                                   partial(eciBurn, acc_vector=np.array(sp["acc"], dtype=float)), 1)
+    return ScheduledFiniteManeuver(ScenarioTime(ts), ScenarioTime(te), partial(spiralThrust, magnitude=sp["mag"]), 1)
+
+
+def _permutations(n):
+    if n == 2:
+        return [(0, 1), (1, 0)]
+    return [(0, 1, 2), (0, 2, 1), (1, 0, 2), (1, 2, 0), (2, 0, 1), (2, 1, 0)]
+
+
+def _chain_region(chain, dt):
+    rels = [_relation(chain[i], chain[i + 1], dt) for i in range(len(chain) - 1)]
+    for name in ("touching_off_grid", "first_active_second_queued", "touching_on_grid",
+                 "second_starts_in_step_first_ends", "gap"):
+        if name in rels:
+            return name
+    return "gap"
+
+
+def _run_protocol2(res, item):
+    """Celestial.propagate over four consecutive calls with two or three non-overlapping finite events in the list,
+    in every list order; "all": the whole list is handed to every call (events that ended long ago or start much
+    later included), "window": only what Scenario.stepForward would have delivered and pruning would have kept.  The
+    event objects persist across the calls, as they do in an agent's queue."""
+    _, seed, variant, chains = item
+    kinds, _ = PROTO2_VARIANTS[variant]
+    specs = _proto2_specs(kinds, seed)
+    dt = 60.0
+    y0 = np.array([7000.0, -200.0, 350.0, 1.0, -2.0, 0.5])
+    dyn = _FreeFlight()
+    checkpoints = [dt * (j + 1) for j in range(PROTO2_CALLS)]
+    for chain in chains:
+        chain = [(float(s), float(e)) for s, e in chain]
+        burns = [(s, e, sp) for (s, e), sp in zip(chain, specs)]
+        region = _chain_region(chain, dt)
+        for perm in _permutations(len(burns)):
+            for offer in ("all", "window"):
+                one = ("protocol2", seed, variant, [[list(iv) for iv in chain]])
+                case = {"variant": variant, "intervals": [list(iv) for iv in chain], "list_order": list(perm),
+                        "offer": offer, "dt": dt, "relation": region}
+                events = [_proto2_event(*burns[i]) for i in perm]
+                state = y0.copy()
+                vels, err = [], None
+                try:
+                    for j in range(PROTO2_CALLS):
+                        WATCHDOG.reset()
+                        t0, t1 = j * dt, (j + 1) * dt
+                        evs = events if offer == "all" else [
+                            ev for ev in events if float(ev.start_time) <= t1 and float(ev.end_time) > t0]
+                        state = dyn.propagate(ScenarioTime(t0), ScenarioTime(t1), state, scheduled_events=evs)
+                        vels.append(np.array(state[3:], dtype=float))
+                except Exception as exc:  # noqa: BLE001
+                    err = f"{type(exc).__name__}: {exc}"
+                if err is not None:
+                    res.case("protocol2/velocity", case, False, nontrivial=True,
+                             signature=f"C15/protocol2/velocity/FreeFlight/{region}/error", observed=err, item=one)
+                    continue
+
+                def worst(hyp_burns):
+                    return max(fw.maxabs(v, _ff_velocity(y0[3:], hyp_burns, t)) for v, t in zip(vels, checkpoints))
+
+                err_v = worst(burns)
+                ok = err_v <= PROTO2_TOL_V
+                label = "exact"
+                if not ok:
+                    label = "unexplained"
+                    hyp = _missed_touching_start([burns[i] for i in perm], dt)
+                    if hyp is not None and worst(hyp) <= PROTO2_TOL_V:
+                        label = "start_at_previous_end_missed"
+                first_bad = next((j + 1 for j, (v, t) in enumerate(zip(vels, checkpoints))
+                                  if fw.maxabs(v, _ff_velocity(y0[3:], burns, t)) > PROTO2_TOL_V), None)
+                res.case("protocol2/velocity", case, ok, nontrivial=True,
+                         signature=f"C15/protocol2/velocity/FreeFlight/{region}/{label}",
+                         observed={"max_dv_km_s": err_v, "equivalent_thrust_s": err_v / 1e-5, "first_bad_call": first_bad,
+                                   "v_final": vels[-1]},
+                         expected={"v_final": _ff_velocity(y0[3:], burns, checkpoints[-1]), "max_dv_km_s": f"<= {PROTO2_TOL_V}"},
+                         outcome=label, item=one)
+                res.observe(vels[-1], err_v)
+        EventStack.logAndFlushEvents()
+
+
 # ---------------------------------------------------------------------------------------------- dispatch
 def run_item(item):
     res = fw.Result()
@@ -1088,6 +1598,12 @@ def run_item(item):
         _run_prune_direct(res, item)
     elif kind == "protocol":
         _run_protocol(res, item)
+    elif kind == "protocol2":
+        _run_protocol2(res, item)
+    elif kind == "sched2":
+        _run_sched2(res, item)
+    elif kind == "scenario2":
+        _run_scenario2(res, item)
     else:
         raise ValueError(kind)
     return res
